@@ -240,7 +240,32 @@ def e2b(ctx) -> None:
                 if a0 == ittxt or (isinstance(it, ast.Name) and a0 == it.id):
                     if _edge_only_raises_allowed(eng, crit, cfg, succ_by_label(cfg, t, "false")):
                         guards.append(t)
+        # a call to a validator that raises unless its argument is a list of str
+        elem_str = False
+        for cs in eng.cg.calls_in(crit):
+            if isinstance(cs.node, ast.Call) and cs.callees and cs.node.args and all(_is_list_str_validator(eng, c) for c in cs.callees):
+                a0 = norm(cs.node.args[0])
+                if a0 == ittxt or (isinstance(it, ast.Name) and a0 == it.id):
+                    vn = cfg.node_of(cs.node)
+                    if vn is not None:
+                        guards.append(vn)
+                        elem_str = True
         local_ok = bool(guards) and cfg.must_pass(cfg.entry, L, guards)
+        # E2e: the loop variable is used in a hash-based membership test (`k not in header` on a dict): its elements must be str
+        kv = norm(L.ast.target)  # type: ignore[union-attr]
+        hashed = []
+        for t in cfg.nodes:
+            if t.kind == "test" and isinstance(t.ast, ast.Compare) and isinstance(t.ast.ops[0], (ast.In, ast.NotIn)) and norm(t.ast.left) == kv:
+                td = eng.types.of(crit.module, t.ast.comparators[0])
+                if any(c in ("builtins.dict", "builtins.set", "builtins.frozenset") for c in td.classes) or td.any:
+                    hashed.append(t)
+        if hashed:
+            eg = [t for t in cfg.nodes if t.kind == "test" and isinstance(t.ast, ast.Call) and isinstance(t.ast.func, ast.Name) and t.ast.func.id == "isinstance"
+                  and len(t.ast.args) == 2 and norm(t.ast.args[0]) == kv and norm(t.ast.args[1]) == "str" and _edge_only_raises_allowed(eng, crit, cfg, succ_by_label(cfg, t, "false"))]
+            ok_e = elem_str and local_ok or (bool(eg) and all(cfg.must_pass(cfg.entry, h, eg) for h in hashed))
+            ctx.check(ok_e, "E2e", crit, hashed[0].ast, f"{crit.short} :: {norm(hashed[0].ast)}", "a member of the untrusted crit list is used as a dict key (`k not in header`) without being "
+                      "checked to be a str: a nested list / object escapes as TypeError (unhashable type)", "members validated as str before the membership test",
+                      construct=f"hash-based membership of {kv} in {crit.short}")
         if local_ok:
             ctx.ok("E2b", f"{crit.short} :: for … in {ittxt}", "isinstance(list) guard dominates the iteration")
             continue
@@ -260,6 +285,76 @@ def e2b(ctx) -> None:
         if callers_ok and sites:
             ctx.ok("E2b", f"{crit.short} callers", "validate_registry_header precedes check_crit_header at every call site")
         ok_all = ok_all and callers_ok
+
+
+def _is_list_str_validator(eng, fn: FunctionInfo) -> bool:
+    """raises (allowed error) unless its first argument is a list whose members are all str"""
+    if not fn.pos_params:
+        return False
+    cfg = cfg_of(fn)
+    p = fn.pos_params[0]
+    lst = elem = False
+    for t in cfg.nodes:
+        if t.kind != "test" or not isinstance(t.ast, ast.Call) or not isinstance(t.ast.func, ast.Name):
+            continue
+        if t.ast.func.id == "isinstance" and len(t.ast.args) == 2 and norm(t.ast.args[0]) == p and norm(t.ast.args[1]) == "list":
+            if not can_reach_exit(cfg, succ_by_label(cfg, t, "false")):
+                lst = True
+        if t.ast.func.id == "all" and t.ast.args and isinstance(t.ast.args[0], (ast.GeneratorExp, ast.ListComp)):
+            g = t.ast.args[0]
+            if norm(g.generators[0].iter) == p and norm(g.elt) == f"isinstance({norm(g.generators[0].target)}, str)" and not can_reach_exit(cfg, succ_by_label(cfg, t, "false")):
+                elem = True
+    return lst and elem
+
+
+def e2e_validators(ctx) -> None:
+    """validators receive header / JWK values of *any* JSON type: a hash-based membership test (`value in <set/dict>`) on such a
+    value needs a preceding str check, a list-based one (== comparisons) does not"""
+    eng = ctx.eng
+    P = eng.prog
+    vals: List[FunctionInfo] = []
+    for fn in P.all_functions():
+        for s in eng.cg.calls_in(fn):
+            if s.kind == "attrfn" and s.attr == "validate":
+                for c in s.callees:
+                    if c not in vals:
+                        vals.append(c)
+    ctx.count("E2e", len(vals), 7, "value validators reached through registry entries")
+    n = 0
+    for V in vals:
+        if not V.pos_params:
+            continue
+        p = V.pos_params[0]
+        cfg = cfg_of(V)
+        for t in cfg.nodes:
+            tests = [t.ast] if t.kind == "test" else []
+            if t.kind == "test" and isinstance(t.ast, ast.Call) and isinstance(t.ast.func, ast.Name) and t.ast.func.id in ("all", "any") and t.ast.args \
+                    and isinstance(t.ast.args[0], (ast.GeneratorExp, ast.ListComp)):
+                tests.append(t.ast.args[0].elt)
+            for e in tests:
+                if not (isinstance(e, ast.Compare) and isinstance(e.ops[0], (ast.In, ast.NotIn))):
+                    continue
+                left = norm(e.left)
+                derived = left == p or any(isinstance(x, ast.comprehension) and norm(x.target) == left and norm(x.iter) == p for x in ast.walk(t.ast))
+                if not derived:
+                    continue
+                n += 1
+                # container kind: a closure variable / constant holding the choices
+                cont = e.comparators[0]
+                td = eng.types.of(V.module, cont)
+                hash_based = any(c in ("builtins.dict", "builtins.set", "builtins.frozenset") for c in td.classes)
+                if isinstance(cont, ast.Name) and V.parent is not None:
+                    for kind, dn, extra in eng.flow._defs(V.parent).get(cont.id, []):
+                        if kind == "assign" and isinstance(dn, ast.Call) and isinstance(dn.func, ast.Name) and dn.func.id in ("set", "frozenset", "dict"):
+                            hash_based = True
+                if isinstance(cont, (ast.Set, ast.Dict)) or (isinstance(cont, ast.Call) and isinstance(cont.func, ast.Name) and cont.func.id in ("set", "frozenset")):
+                    hash_based = True
+                guarded = any(g.kind == "test" and isinstance(g.ast, ast.Call) and isinstance(g.ast.func, ast.Name) and g.ast.func.id == "isinstance" and norm(g.ast.args[0]) == left
+                              and norm(g.ast.args[1]) == "str" and cfg.dominates(g, t) for g in cfg.nodes)
+                ctx.check(not hash_based or guarded, "E2e", V, e, f"{V.short} :: {norm(e)}", "a validator tests an untrusted value for membership in a hash-based container without a str check: "
+                          "an unhashable JSON value (list / object) escapes as TypeError instead of ValueError", "list-based membership (== comparisons) or str-guarded",
+                          construct=f"hash-based membership {norm(e)} in {V.short}")
+    ctx.extra["validator_membership_tests"] = n
 
 
 # ----------------------------------------------------------------------------------------------- E2c
@@ -813,6 +908,7 @@ def run(ctx) -> None:
     ctx.guard(e1_e5)
     ctx.guard(e2a)
     ctx.guard(e2b)
+    ctx.guard(e2e_validators)
     ctx.guard(e2c)
     ctx.guard(e2d)
     ctx.guard(e3)
